@@ -3,7 +3,7 @@
    for every image size, every block size B >= 1, every odd filter size, every map and mask,
    every non-negative weight kernel that weighs a pixel on itself. *)
 From Coq Require Import ZArith QArith Qround List Bool Lia Lqa Sorting Permutation.
-From Pandora Require Import Lib.Arr Lib.Blocks Model.Filters Spec.Filters.
+From Pandora Require Import Lib.Arr Lib.Blocks Model.Filters Spec.Filters Model.FiltersCheck.
 Import ListNotations.
 Open Scope Z_scope.
 
@@ -813,4 +813,101 @@ Theorem is_wmean_unique : forall m m' terms, is_wmean m terms -> is_wmean m' ter
 Proof.
   intros m m' terms [Hpos Hm] [_ Hm']. rewrite <- Hm' in Hm.
   apply (Qmult_inj_r _ _ (sumq (map fst terms))); [lra | exact Hm].
+Qed.
+
+(* ================================================================== the extracted spec checker
+   (Model/FiltersCheck.v) accepts exactly what the Spec accepts *)
+
+Lemma q_same_iff : forall a b, q_same a b = true <-> a = b.
+Proof.
+  intros [n d] [n' d']. unfold q_same. cbn [Qnum Qden]. rewrite andb_true_iff, Z.eqb_eq, Pos.eqb_eq.
+  split; [intros [-> ->]; reflexivity | intros E; inversion E; auto].
+Qed.
+
+Lemma oq_same_iff : forall a b, oq_same a b = true <-> a = b.
+Proof.
+  intros [x|] [y|]; cbn [oq_same]; try rewrite q_same_iff; split; congruence.
+Qed.
+
+Lemma is_median_b_iff : forall m l, is_median_b m l = true <-> is_median m l.
+Proof.
+  intros m l. unfold is_median_b.
+  pose proof (isort_perm l) as Hp. pose proof (isort_sorted l) as Hs.
+  split.
+  - destruct (isort l) as [|x s] eqn:E; [discriminate|]. intros H. apply Qeq_bool_iff in H.
+    exists (x :: s). split; [exact Hp|]. split; [exact Hs|]. split; [discriminate | exact H].
+  - intros Hm.
+    assert (Hm' : is_median (mid (isort l)) l).
+    { destruct Hm as (s & Hps & _ & Hne & _). exists (isort l). split; [exact Hp|]. split; [exact Hs|].
+      split; [|reflexivity]. intro E. rewrite E in Hp. apply Permutation_nil in Hp.
+      subst l. apply Permutation_sym, Permutation_nil in Hps. contradiction. }
+    pose proof (is_median_unique _ _ _ Hm Hm') as Heq.
+    destruct (isort l) as [|x s] eqn:E.
+    + destruct Hm' as (s' & Hps' & _ & Hne' & _). apply Permutation_nil in Hp. subst l.
+      apply Permutation_sym, Permutation_nil in Hps'. contradiction.
+    + apply Qeq_bool_iff. exact Heq.
+Qed.
+
+Lemma all_px_iff : forall ny nx p,
+  all_px ny nx p = true <-> (forall r c, 0 <= r < ny -> 0 <= c < nx -> p r c = true).
+Proof.
+  intros. unfold all_px. rewrite forallb_forall. split.
+  - intros H r c Hr Hc. specialize (H r (proj2 (In_zrange ny r) Hr)). rewrite forallb_forall in H.
+    apply H, In_zrange, Hc.
+  - intros H r Hr. apply forallb_forall. intros c Hc. apply H; apply In_zrange; assumption.
+Qed.
+
+(* one pixel of the median Spec, as a proposition *)
+Definition median_px_spec (rad ny nx : Z) (val before after : dmap) (r c : Z) : Prop :=
+  (val r c = None -> after r c = before r c) /\
+  (~ fits rad rad ny nx r c -> after r c = before r c) /\
+  (fits rad rad ny nx r c -> forall v, val r c = Some v ->
+     exists m, after r c = Some m /\ is_median m (win_vals val rad rad r c)).
+
+Lemma median_px_ok_iff : forall rad ny nx val before after r c,
+  median_px_ok rad ny nx val before after r c = true <-> median_px_spec rad ny nx val before after r c.
+Proof.
+  intros. unfold median_px_ok, median_px_spec. change fits_bool with fits_b.
+  destruct (val r c) as [v|] eqn:Ev.
+  - destruct (fits_b rad rad ny nx r c) eqn:Ef.
+    + apply fits_b_iff in Ef. split.
+      * intros H. split; [discriminate|]. split; [contradiction|]. intros _ v' _.
+        destruct (after r c) as [m|]; [|discriminate]. exists m. split; [reflexivity|].
+        apply is_median_b_iff, H.
+      * intros (_ & _ & H). destruct (H Ef v eq_refl) as (m & -> & Hm). apply is_median_b_iff, Hm.
+    + apply fits_b_false in Ef. rewrite oq_same_iff. split.
+      * intros H. split; [discriminate|]. split; [intros _; exact H | contradiction].
+      * intros (_ & H & _). apply H, Ef.
+  - rewrite oq_same_iff. split.
+    + intros H. split; [intros _; exact H|]. split; [intros _; exact H | discriminate].
+    + intros (H & _). apply H. reflexivity.
+Qed.
+
+(* the boolean checker applied to (input, output) pairs = the Spec on the pixels of the image *)
+Theorem median_step_spec_b_iff : forall inv rad ny nx disp mask disp' mask',
+  median_step_spec_b inv rad ny nx disp mask disp' mask' = true <->
+  (forall r c, 0 <= r < ny -> 0 <= c < nx ->
+     mask' r c = mask r c /\ median_px_spec rad ny nx (valid_disp inv disp mask) disp disp' r c).
+Proof.
+  intros. unfold median_step_spec_b. rewrite all_px_iff. split; intros H r c Hr Hc; specialize (H r c Hr Hc).
+  - apply andb_true_iff in H. rewrite Z.eqb_eq, median_px_ok_iff in H. exact H.
+  - apply andb_true_iff. rewrite Z.eqb_eq, median_px_ok_iff. exact H.
+Qed.
+
+Theorem median_map_spec_b_iff : forall rad ny nx data out,
+  median_map_spec_b rad ny nx data out = true <->
+  (forall r c, 0 <= r < ny -> 0 <= c < nx -> median_px_spec rad ny nx data data out r c).
+Proof.
+  intros. unfold median_map_spec_b. rewrite all_px_iff. split; intros H r c Hr Hc; specialize (H r c Hr Hc);
+    apply median_px_ok_iff; exact H.
+Qed.
+
+(* and the model passes its own checker (the Spec theorems, through the checker) *)
+Corollary median_model_passes_checker : forall inv B rad ny nx disp mask, 1 <= B -> 0 <= rad ->
+  let out := median_filter_disparity inv B (2 * rad + 1) ny nx disp mask in
+  median_step_spec_b inv rad ny nx disp mask (fst out) (snd out) = true.
+Proof.
+  intros inv B rad ny nx disp mask HB Hrad out. apply median_step_spec_b_iff. intros r c _ _.
+  destruct (median_eq_spec inv B rad ny nx disp mask HB Hrad) as (H1 & H2 & H3 & H4). fold out in H1, H2, H3, H4.
+  split; [apply H1|]. split; [apply H2|]. split; [apply H3 | apply H4].
 Qed.
